@@ -59,6 +59,8 @@ mod types;
 
 // Export some public interface
 pub mod utils;
+#[cfg(feature = "rscel_verif")]
+pub mod verif;
 pub use compiler::{
     ast_node::AstNode, compiler::CelCompiler, grammar::*, source_location::SourceLocation,
     source_range::SourceRange, string_tokenizer::StringTokenizer, tokenizer::Tokenizer,
